@@ -274,11 +274,23 @@ E('truncate', 'transformation.py', ['C02', 'C09', 'C11', 'C16'],
 # ================================================================================================================
 # svd
 # ================================================================================================================
+def _gen_skeleton(g):
+    """every flag decisive: rel=True with an active relative threshold on data of scale 8 (non-symmetric), hermitian=True on
+    a symmetric matrix with an active absolute threshold, or neither"""
+    k = g.int(0, 2)
+    if k == 2:
+        B = g.arr(g.int(3, 5), 3)
+        return dict(A=B @ B.T * 4., e=g.pick(0.3, 1e-3), r=g.pick(1e12, 2, 100), hermitian=True, rel=False,
+                    give_to=g.pick('m', 'l', 'r'))
+    rel = k == 1
+    return dict(A=g.arr(g.int(3, 6), g.int(3, 6)) * (8. if rel else g.pick(1., 4.)),
+                e=g.pick(0.3, 0.5, 1e-3) if rel else g.pick(1e-10, 1e-3, 0.3), r=g.pick(1e12, 2, 3, 100), rel=rel,
+                give_to=g.pick('m', 'l', 'r'))
+
+
 E('matrix_skeleton', 'svd.py', ['C03', 'C02', 'C11', 'C20'],
   # e up to 0.7 on data of scale 1 .. 4: the truncation is active and depends on whether e is relative
-  lambda g: (lambda rel: dict(A=g.arr(g.int(3, 6), g.int(3, 6)) * (8. if rel else g.pick(1., 4.)),
-                              e=g.pick(0.3, 0.5, 1e-3) if rel else g.pick(1e-10, 1e-3, 0.3), r=g.pick(1e12, 2, 3, 100), rel=rel,
-                              give_to=g.pick('m', 'l', 'r')))(g.flag()),
+  lambda g: _gen_skeleton(g),
   dict(A='array', e='float', r='int:f', hermitian='flag', rel='flag', give_to='other'),
   # e is absolute unless rel: scaled alike; the factors share the scale according to give_to
   homog=H(lambda a: {'A': 1} if a['rel'] else {'A': 1, 'e': 1},
